@@ -189,6 +189,8 @@ pub fn apply(book: &mut Spreadsheet, op: &Op) -> bool {
             s.get_cell_mut(cell.as_str()).set_hyperlink(h);
         }),
         Op::Comment { sheet, cell, author, text } => sheet_mut(book, *sheet).map(|s| {
+            // a cell carries one comment: setting it again replaces the old one
+            s.get_comments_mut().retain(|o| o.get_coordinate().to_string() != *cell);
             let mut c = umya::Comment::default();
             c.new_comment(cell.as_str());
             c.set_author(author.clone());
@@ -257,9 +259,67 @@ pub fn apply(book: &mut Spreadsheet, op: &Op) -> bool {
         }),
         Op::Format { sheet, cell, k } => sheet_mut(book, *sheet).map(|s| {
             let st = s.get_style_mut(cell.as_str());
-            match k % 7 {
+            match k % 16 {
                 0 => {
                     st.get_font_mut().set_italic(true);
+                }
+                7 => {
+                    st.get_font_mut().set_charset(128).set_family(3).set_scheme("minor");
+                }
+                8 => {
+                    let mut b = umya::Border::default();
+                    b.set_border_style(umya::Border::BORDER_DASHED);
+                    b.get_color_mut().set_argb("FF00AA00");
+                    st.get_borders_mut().set_diagonal(b);
+                    st.get_borders_mut().set_diagonal_up(true);
+                }
+                9 => {
+                    st.get_alignment_mut().set_text_rotation(45);
+                }
+                10 => {
+                    let mut p = umya::Protection::default();
+                    p.set_locked(false);
+                    p.set_hidden(true);
+                    st.set_protection(p);
+                }
+                11 => {
+                    let mut pf = umya::PatternFill::default();
+                    pf.set_pattern_type(umya::PatternValues::DarkGrid);
+                    let mut c = umya::Color::default();
+                    c.set_theme_index(4);
+                    c.set_tint(0.399975585192419);
+                    pf.set_foreground_color(c);
+                    let mut c2 = umya::Color::default();
+                    c2.set_argb("FFFFEE00");
+                    pf.set_background_color(c2);
+                    let mut f = umya::Fill::default();
+                    f.set_pattern_fill(pf);
+                    st.set_fill(f);
+                }
+                12 => {
+                    let mut g = umya::GradientFill::default();
+                    g.set_degree(90.0);
+                    for (pos, argb) in [(0.0, "FFFF0000"), (1.0, "FF0000FF")] {
+                        let mut stop = umya::GradientStop::default();
+                        stop.set_position(pos);
+                        stop.get_color_mut().set_argb(argb);
+                        g.set_gradient_stop(stop);
+                    }
+                    let mut f = umya::Fill::default();
+                    f.set_gradient_fill(g);
+                    st.set_fill(f);
+                }
+                13 => {
+                    st.get_font_mut().get_color_mut().set_theme_index(5).set_tint(-0.249977111117893);
+                }
+                14 => {
+                    st.get_borders_mut().get_top_mut().set_border_style(umya::Border::BORDER_MEDIUM);
+                    st.get_borders_mut().get_top_mut().get_color_mut().set_indexed(10);
+                    st.get_borders_mut().get_right_mut().set_border_style(umya::Border::BORDER_HAIR);
+                }
+                15 => {
+                    st.get_alignment_mut().set_horizontal(umya::HorizontalAlignmentValues::Justify);
+                    st.get_alignment_mut().set_vertical(umya::VerticalAlignmentValues::Distributed);
                 }
                 1 => {
                     st.get_font_mut().get_color_mut().set_argb("FF3366CC");
@@ -302,6 +362,7 @@ pub fn apply(book: &mut Spreadsheet, op: &Op) -> bool {
             s.get_column_dimension_by_number_mut(col).set_hidden(true);
         }),
         Op::CommentRich { sheet, cell, author, parts } => sheet_mut(book, *sheet).map(|s| {
+            s.get_comments_mut().retain(|o| o.get_coordinate().to_string() != *cell);
             let mut c = umya::Comment::default();
             c.new_comment(cell.as_str());
             c.set_author(author.clone());
@@ -438,7 +499,7 @@ pub fn gen_cell_op(rng: &mut Rng, cfg: &GenCfg, tag: &str) -> Op {
             }
         }
         6 => match rng.usize(7) {
-            3 | 4 => Op::Format { sheet, cell, k: rng.below(7) as u8 },
+            3 | 4 => Op::Format { sheet, cell, k: rng.below(16) as u8 },
             5 => Op::HideRow { sheet, row: 1 + rng.below(12) as u32 },
             6 => Op::HideCol { sheet, col: 1 + rng.below(8) as u32 },
             0 => Op::Bold { sheet, cell },
